@@ -378,7 +378,24 @@ func c13Solo(c *mon.Ctx) {
 			lint.RegisterLint(&lint.Lint{Name: "e_verif_added_legacy", Description: "verif addition", Citation: "verif", Source: lint.EtsiEsi, Lint: func() lint.LintInterface { return probeCert{} }})
 		}},
 	}
-	addedNames := []string{"e_verif_added_ocsp", "w_verif_added_crl", "n_verif_added_cert", "e_verif_added_ocsp2", "e_verif_added_legacy"}
+	steps = append(steps, struct {
+		what string
+		do   func()
+	}{"after registering a renamed variant of a lint looked up through the deprecated ByName", func() {
+		if v := lint.GlobalRegistry().ByName("e_ca_is_ca"); v != nil {
+			v.Name = "e_verif_added_variant"
+			lint.RegisterLint(v)
+		}
+	}}, struct {
+		what string
+		do   func()
+	}{"after registering two lints from one re-used deprecated Lint value", func() {
+		t := &lint.Lint{Name: "e_verif_added_tmpl_a", Description: "verif addition", Citation: "verif", Source: lint.RFC5280, Lint: func() lint.LintInterface { return probeCert{} }}
+		lint.RegisterLint(t)
+		t.Name, t.Source = "w_verif_added_tmpl_b", lint.Community
+		lint.RegisterLint(t)
+	}})
+	addedNames := []string{"e_verif_added_ocsp", "w_verif_added_crl", "n_verif_added_cert", "e_verif_added_ocsp2", "e_verif_added_legacy", "e_verif_added_variant", "e_verif_added_tmpl_a"}
 	for k, st := range steps {
 		st.do()
 		c13LibPass(c, st.what, addedNames[:k+1]...)
